@@ -22,6 +22,7 @@ import (
 	"github.com/EliCDavis/polyform/math/sample"
 	"github.com/EliCDavis/polyform/math/sdf"
 	"github.com/EliCDavis/polyform/modeling"
+	"github.com/EliCDavis/polyform/modeling/marching"
 	"github.com/EliCDavis/polyform/modeling/primitives"
 	"github.com/EliCDavis/polyform/modeling/triangulation"
 	"github.com/EliCDavis/polyform/rendering"
@@ -33,6 +34,7 @@ import (
 	"verif/harness/ctwin"
 	"verif/harness/meshlib"
 	"verif/harness/props/c01"
+	ml "verif/harness/props/meshopslib"
 )
 
 func reg(id string, fams func() []ctwin.Family) {
@@ -48,6 +50,9 @@ func init() {
 	reg("C06T", func() []ctwin.Family { return []ctwin.Family{gltfFamily()} })
 	reg("C07T", func() []ctwin.Family { return []ctwin.Family{stlFamily()} })
 	reg("C15T", func() []ctwin.Family { return []ctwin.Family{splatFamily()} })
+	reg("C09T", func() []ctwin.Family { return []ctwin.Family{marchFamily()} })
+	reg("C02T", meshopsFamilies)
+	reg("C03T", meshopsFamilies)
 	reg("C16T", c16Families)
 	reg("C19T", func() []ctwin.Family { return []ctwin.Family{sdfFamily()} })
 	reg("C20T", func() []ctwin.Family { return []ctwin.Family{triangulationFamily()} })
@@ -204,10 +209,17 @@ func objFamily() ctwin.Family {
 }
 
 func gltfFamily() ctwin.Family {
-	return codecFamily("gltf", "gltf.WriteBinary",
+	f := codecFamily("gltf(binary)", "gltf.WriteBinary",
 		func(m modeling.Mesh, w io.Writer) error {
 			return gltf.WriteBinary(gltf.PolyformScene{Models: []gltf.PolyformModel{{Name: "m", Mesh: &m}}}, w)
 		}, nil)
+	g := codecFamily("gltf(text)", "gltf.WriteText",
+		func(m modeling.Mesh, w io.Writer) error {
+			return gltf.WriteText(gltf.PolyformScene{Models: []gltf.PolyformModel{{Name: "m", Mesh: &m}}}, w)
+		}, nil)
+	f.Name = "gltf"
+	f.Thunks = append(f.Thunks, g.Thunks...)
+	return f
 }
 
 func stlFamily() ctwin.Family {
@@ -254,6 +266,135 @@ func splatFamily() ctwin.Family {
 		}})
 	}
 	return f
+}
+
+// ---- C09: marching cubes on unrelated canvases (this binary stores 6^3 blocks: build-sched.sh) ----
+
+func marchFamily() ctwin.Family {
+	f := ctwin.Family{Name: "marching(own canvas per call)", Site: "marching.MarchingCanvas.March", Bounds: []int{0}}
+	fields := []struct {
+		name string
+		f    marching.Field
+		cpu  float64
+	}{
+		{"sphere r=1.6 at 1 cube/unit", marching.Sphere(v3(2.5, 2.5, 2.5), 1.6, 1), 1},
+		{"sphere r=1.1 at 2 cubes/unit, across a block boundary", marching.Sphere(v3(3.1, 1.2, 1.4), 1.1, 1), 2},
+		{"box + line at 1 cube/unit", marching.Box(v3(2, 2, 2), v3(2.2, 1.6, 1.8), 1).Combine(marching.Line(v3(0.5, 2, 2), v3(4.5, 3, 2), 0.7, 1)), 1},
+	}
+	for _, fd := range fields {
+		fd := fd
+		f.Thunks = append(f.Thunks,
+			ctwin.Thunk{Name: "March: " + fd.name, Run: func() uint64 {
+				cv := marching.NewMarchingCanvas(fd.cpu)
+				cv.AddField(fd.f)
+				return triangleMultiset(cv.March(0))
+			}},
+			ctwin.Thunk{Name: "Field.March: " + fd.name, Run: func() uint64 {
+				return triangleMultiset(fd.f.March(modeling.PositionAttribute, fd.cpu, 0))
+			}})
+	}
+	return f
+}
+
+// triangleMultiset: an order-insensitive digest of a triangle mesh (the canvas emits vertices and
+// triangles in map order): the commutative sum of per-triangle digests over the corner positions,
+// each triangle rotated to start at its smallest corner.
+func triangleMultiset(m modeling.Mesh) uint64 {
+	idx := m.Indices()
+	if !m.HasFloat3Attribute(modeling.PositionAttribute) {
+		return uint64(idx.Len())
+	}
+	pos := m.Float3Attribute(modeling.PositionAttribute)
+	less := func(a, b vector3.Float64) bool {
+		if a.X() != b.X() {
+			return a.X() < b.X()
+		}
+		if a.Y() != b.Y() {
+			return a.Y() < b.Y()
+		}
+		return a.Z() < b.Z()
+	}
+	sum := uint64(idx.Len())
+	for t := 0; t+2 < idx.Len(); t += 3 {
+		a, b, c := pos.At(idx.At(t)), pos.At(idx.At(t+1)), pos.At(idx.At(t+2))
+		for less(b, a) || less(c, a) {
+			a, b, c = b, c, a
+		}
+		h := newHasher()
+		h.v3(a)
+		h.v3(b)
+		h.v3(c)
+		sum += h.h
+	}
+	return sum
+}
+
+// ---- C02 / C03: one mesh operation on two unrelated meshes at once ---------------------------
+
+// Every operation of the shared alphabet (default parameters) applied, in two goroutines, to two
+// different meshes: state private to one operation (a scratch table, a pooled buffer) is shared by
+// exactly these two calls.
+func meshopsFamilies() []ctwin.Family {
+	specs := []meshlib.Spec{
+		{Topo: "tri", V: 6, Idx: []int{4, 2, 0, 4, 3, 2, 1, 5, 0}, Mix: "all", Mats: []int{2, 1}},
+		{Topo: "tri", V: 4, Idx: []int{1, 0, 2, 2, 3, 1}, Mix: "all", Mats: []int{1, 1}},
+	}
+	f := ctwin.Family{Name: "meshops(same operation, two meshes)", Site: "modeling/meshops", Pairs: [][2]int{}}
+	for _, op := range ml.Alphabet {
+		op := op
+		if strings.Contains(op.Name, "Laplacian") {
+			continue // sums neighbours in map order: last-bit differences between two runs are legitimate
+		}
+		if strings.Contains(op.Name, "Parallel") {
+			continue // spawns workers of its own: C10's subject
+		}
+		var ths []ctwin.Thunk
+		for si, sp := range specs {
+			sp := sp
+			sh := ml.ShapeOfSpec(sp)
+			vs := op.Variants(sh, false)
+			if len(vs) == 0 {
+				continue
+			}
+			p := vs[0]
+			if op.Outside != nil && op.Outside(sh, p) != "" {
+				continue
+			}
+			// operations that reject this input have no result to compare
+			ok := true
+			func() {
+				defer func() {
+					if recover() != nil {
+						ok = false
+					}
+				}()
+				if _, err := op.Apply(sp.Build(), p); err != nil {
+					ok = false
+				}
+			}()
+			if !ok {
+				continue
+			}
+			run := func() uint64 {
+				h := newHasher()
+				res, err := op.Apply(sp.Build(), p)
+				h.err(err)
+				for _, r := range res {
+					h.u64(meshlib.QuickHash(r))
+				}
+				return h.h
+			}
+			if run() != run() {
+				continue // sums in map order (LaplacianSmooth): no single result to compare with
+			}
+			ths = append(ths, ctwin.Thunk{Name: fmt.Sprintf("%s on mesh %d", op.Name, si), Run: run})
+		}
+		if len(ths) == 2 {
+			f.Thunks = append(f.Thunks, ths...)
+			f.Pairs = append(f.Pairs, [2]int{len(f.Thunks) - 2, len(f.Thunks) - 1})
+		}
+	}
+	return []ctwin.Family{f}
 }
 
 // ---- C16: one index queried from two goroutines -----------------------------------------------
